@@ -66,7 +66,7 @@ class Fixture:
             "EntGroup": self.group, "EntForeign": self.foreign, "EntForeignObj": self.foreignobj,
             "EntInt": self.intdata, "EntCurve": self.curve,
             "Pg3D": self.pg3d, "PgMulti": self.pgmulti, "PgOther": self.pgother,
-            "ListStr": ["a", "b"], "Ws": self.ws,
+            "ListStr": ["a", "b"], "ListInt": [42], "Ws": self.ws,
         }
         self._by_id = {id(v): k for k, v in self.values.items()
                        if not isinstance(v, (str, int, float, bool, type(None), uuid.UUID, list))}
@@ -100,7 +100,7 @@ class Fixture:
         if isinstance(val, (str, uuid.UUID)):
             return self._by_eq.get((type(val).__name__, str(val)), f"?{type(val).__name__}:{val}")
         if isinstance(val, list):
-            return "ListStr" if val == ["a", "b"] else f"?list:{val}"
+            return "ListStr" if val == ["a", "b"] else "ListInt" if val == [42] else f"?list:{val}"
         return self._by_id.get(id(val), f"?{type(val).__name__}")
 
 
@@ -165,6 +165,8 @@ def classic_ui_json(fix, cfg):
     if cfg["dep"]:
         if cfg["dkind"] == "bool":
             ui["dep"] = {"label": "dep", "value": cfg["dstate"]}
+            if cfg.get("den", "absent") != "absent":     # a plain checkbox that carries an enabled member
+                ui["dep"]["enabled"] = cfg["den"] == "on"
         else:
             ui["dep"] = {"label": "dep", "value": 2.5, "optional": True, "enabled": cfg["dstate"]}
     ui["obj"] = templates.object_parameter(value=fix.obj.uid)
@@ -186,6 +188,21 @@ def classic_ui_json(fix, cfg):
 def _snap(infile):
     ui = {k: (dict(v) if isinstance(v, dict) else v) for k, v in infile.ui_json.items()}
     return ui, dict(infile.data)
+
+
+def other_ui_json(fix, which):
+    """An unrelated, valid ui.json whose selector is multiSelect (the "Prime" action of the specification)."""
+    from geoh5py.ui_json import templates
+    from geoh5py.ui_json.constants import default_ui_json
+    ui = deepcopy(default_ui_json)
+    ui["geoh5"] = fix.ws
+    if which == "multiObject":
+        ui["selection"] = templates.object_parameter(value=[str(fix.obj.uid), str(fix.objb.uid)], multi_select=True)
+    else:
+        ui["parent_object"] = templates.object_parameter(value=str(fix.obj.uid))
+        ui["channels"] = templates.data_parameter(parent="parent_object", value=[str(fix.data.uid)])
+        ui["channels"]["multiSelect"] = True
+    return ui
 
 
 class ClassicMachine:
@@ -210,9 +227,12 @@ class ClassicMachine:
 
     def step(self, act, arg, arg2=""):
         from geoh5py.ui_json import InputFile
-        val = self.fix.value(arg)
+        val = None if act == "Prime" else self.fix.value(arg)
         before = _snap(self.infile)
-        if act == "Load":
+        if act == "Prime":
+            def call():
+                _ = InputFile(ui_json=other_ui_json(self.fix, arg)).data
+        elif act == "Load":
             def call():
                 _ = InputFile(ui_json=classic_ui_json(self.fix, self.cfg)).data
         elif act == "SetKey":
@@ -352,6 +372,35 @@ class ParamMachine:
         return verdict, self.visible(), why, False
 
 
+# ------------------------------------------------------------------ new API: members of one FormParameter
+class FormMachine:
+    MEMBERS = ("label", "tooltip", "main")
+
+    def __init__(self, cfg):
+        from geoh5py.ui_json import forms
+        self.fix = fixture()
+        self.obj = forms.StringFormParameter("p")
+
+    def visible(self):
+        form = self.obj.form()
+        vis = {m: (self.fix.token(form[m]) if m in form else "absent") for m in self.MEMBERS}
+        vis["stored"] = self.fix.token(form["value"]) if "value" in form else "absent"
+        return vis
+
+    def step(self, act, arg, arg2=""):
+        if act == "SetMember":
+            verdict, why = attempt(lambda: setattr(self.obj, arg, self.fix.value(arg2)))
+        elif act == "RegisterMember":
+            verdict, why = attempt(lambda: self.obj.register({arg: self.fix.value(arg2)}))
+        elif act == "Assign":
+            verdict, why = attempt(lambda: setattr(self.obj, "value", self.fix.value(arg)))
+        elif act == "ValidateForm":
+            verdict, why = attempt(self.obj.validate)
+        else:
+            raise ValueError(act)
+        return verdict, self.visible(), why, False
+
+
 # ------------------------------------------------------------------ new API: UIJson
 class UIJsonMachine:
     def __init__(self, cfg):
@@ -395,4 +444,5 @@ class UIJsonMachine:
         return verdict, self.visible(), why, False
 
 
-MACHINES = {"classic": ClassicMachine, "oneof": OneOfMachine, "param": ParamMachine, "uijson": UIJsonMachine}
+MACHINES = {"classic": ClassicMachine, "oneof": OneOfMachine, "param": ParamMachine, "form": FormMachine,
+            "uijson": UIJsonMachine}
